@@ -76,6 +76,14 @@ def gen_cases(tier, rng):
     for cls in (0, 1):
         for ops in exhaustive_histories(cls, Ls, sample=(1500 if quick else 20000), rng=rng):
             yield {"kind": "exh%d-sample" % Ls, "cls": cls, "N": 3, "ops": ops}
+    # objects built by the constructor from given networkx graphs (different node sets per graph), then a history
+    for i in range(150 if quick else 1500):
+        init = []
+        for nm in rng.sample(range(4), rng.randint(1, 3)):
+            es = [rng.sample(range(4), 2) for _ in range(rng.choice([0, 1, 1, 2]))]
+            init.append([nm, rng.randint(0, 1), es])
+        ops = [[11, 0, []]] + random_history(rng, 0, rng.choice([0, 3, 10]))
+        yield {"kind": "ctor", "cls": 0, "N": 4, "init": init, "ops": ops}
     n_rand, length = (260, 25) if quick else (260, 200)
     for i in range(n_rand):
         cls = i % 2
@@ -85,8 +93,14 @@ def gen_cases(tier, rng):
             yield {"kind": "rand25", "cls": i % 2, "N": 4, "ops": random_history(rng, i % 2, 25)}
 
 
+def _init_ops(case):
+    """case["init"] = [[name, kind, [[u,v]..]], ..]: the object is built by MixedEdgeGraph(graphs=[...], edge_types=[...]);
+    for the model that is the empty graph followed by one add_edge_type per given graph"""
+    return [[9, 0, nm, kd, es] for nm, kd, es in case.get("init", [])]
+
+
 def encode(case):
-    return [case["cls"], case["N"], case["ops"]]
+    return [case["cls"], case["N"], _init_ops(case) + case["ops"]]
 
 
 def _split(objv):
@@ -96,7 +110,7 @@ def _split(objv):
 
 def decode(case, v):
     steps = []
-    for st in v:
+    for st in v[len(_init_ops(case)):]:
         objs = []
         for o in st[1]:
             d = _split(o)
@@ -373,7 +387,12 @@ def run_impl(case):
     from pywhy_graphs import ADMG
     lab, inv = gr.labeler(case)
     N = case["N"]
-    objs = [ADMG() if case["cls"] else pywhy_nx.MixedEdgeGraph()]
+    if case.get("init"):
+        import networkx as nx
+        gs = [(nx.DiGraph if kd else nx.Graph)([(lab(u), lab(v)) for u, v in es]) for nm, kd, es in case["init"]]
+        objs = [pywhy_nx.MixedEdgeGraph(graphs=gs, edge_types=[LNAMES[nm] for nm, kd, es in case["init"]])]
+    else:
+        objs = [ADMG() if case["cls"] else pywhy_nx.MixedEdgeGraph()]
     _ARGS.clear()
     steps = []
     for op in case["ops"]:
@@ -456,7 +475,7 @@ def nontrivial(case, model):
 
 
 def key(case):
-    return (case["cls"], case["N"], repr(case["ops"]))
+    return (case["cls"], case["N"], repr(case.get("init")), repr(case["ops"]))
 
 
 def shrink(case):
@@ -478,11 +497,17 @@ def shrink(case):
         yield dict(case, ops=rest)
     if case["N"] > 2:
         mx = 0
-        for o in ops:
+        for o in ops + _init_ops(case):
             for x in _nodes_of(o):
                 mx = max(mx, x)
         if mx + 1 < case["N"]:
             yield dict(case, N=mx + 1)
+    init = case.get("init") or []
+    for i in range(len(init)):
+        if len(init) > 1:
+            yield dict(case, init=init[:i] + init[i + 1:])
+        for j in range(len(init[i][2])):
+            yield dict(case, init=init[:i] + [[init[i][0], init[i][1], init[i][2][:j] + init[i][2][j + 1:]]] + init[i + 1:])
     # simplify arguments: drop attrs
     for i, o in enumerate(ops):
         if o[0] in (0, 1) and o[3]:
